@@ -68,7 +68,9 @@ def run(ctx):
     nsites = sum(len(v) for v in prog.sites.values())
     ctx.notes["call_sites_resolved"] = nsites
     ctx.notes["call_sites_unresolved"] = len(prog.unresolved)
-    ctx.notes["tracked_heads"] = sorted(TRACKED_HEADS)
+    from .effects_common import _extra_heads, NOT_STATE
+    ctx.notes["tracked_heads"] = sorted(TRACKED_HEADS | _extra_heads)
+    ctx.notes["constructor_attributes_not_state"] = NOT_STATE
     ctx.notes["whitelist"] = [{"function": f, "head": h, "kind": k,
                                "reason": why} for (f, h, k, why) in WHITELIST]
     by_origin = {}
